@@ -311,7 +311,7 @@ fn reject_oracle(c: &Reject) -> Verdict {
 pub fn subs() -> Vec<Box<dyn DynSub>> {
     vec![
         sub(Sub { name: "c08.all_days", source: Source::Enum(valid_enum, |_| true), oracle: valid_oracle, known: no_known, hang_is_violation: false }),
-        sub(Sub { name: "c08.generated_times", source: Source::Gen(valid_gen_strategy, 400_000, 20_000_000), oracle: valid_oracle, known: no_known, hang_is_violation: false }),
-        sub(Sub { name: "c08.rejection", source: Source::Gen(reject_strategy, 400_000, 12_000_000), oracle: reject_oracle, known: reject_known, hang_is_violation: false }),
+        sub(Sub { name: "c08.generated_times", source: Source::Gen(valid_gen_strategy, 800_000, 20_000_000), oracle: valid_oracle, known: no_known, hang_is_violation: false }),
+        sub(Sub { name: "c08.rejection", source: Source::Gen(reject_strategy, 800_000, 12_000_000), oracle: reject_oracle, known: reject_known, hang_is_violation: false }),
     ]
 }
